@@ -1,5 +1,6 @@
 import Regatta.Driver.Proto
 import Regatta.Model.Wire
+import Regatta.Model.WireDec
 namespace Regatta.Driver.WireMode
 open Regatta Regatta.Proto Regatta.Wire
 
@@ -121,7 +122,13 @@ def step (_ : Unit) (toks : List String) : Unit × String :=
     | some (kv, []) => s!"ok {hx kv.enc} {b2s (KeyValue.dec kv.enc == some kv)} 1"
     | _ => "bad-op")
   | "msg" :: "C" :: rest => (match pCommand ("C" :: rest) with
-    | some (c, []) => s!"ok {hx c.enc} 1 1"
+    | some (c, []) =>
+      -- the Lean decoder (the one `c18_command_message` is about) run on the encoding: it must
+      -- give a command with the same encoding back (equal commands, by `c18_command_injective`)
+      let back := match Command.decode c.depth c.enc with
+        | some c' => c'.enc == c.enc
+        | none => false
+      s!"ok {hx c.enc} {b2s back} 1"
     | _ => "bad-op")
   | ["file", seed, n, mn, mx] => (match seed.toNat?, n.toNat?, mn.toNat?, mx.toNat? with
     | some seed, some n, some mn, some mx =>
